@@ -1,6 +1,7 @@
 (* C11 — dump omits exactly the fields selected by skip rules, exclude and dump=False.
    This file holds only statements closed by `exact`/short glue and Print Assumptions.
-   Model: coq/model/SkipModel.v; lemmas: coq/proofs/SkipCondProofs.v, SkipKeysProofs.v. *)
+   Model: coq/model/SkipModel.v (the behaviour after the F6 and F20 repairs);
+   lemmas: coq/proofs/SkipCondProofs.v, SkipKeysProofs.v. *)
 From DW Require Import PyStr SkipModel SkipCondProofs SkipKeysProofs T_CondOps.
 From Coq Require Import ZArith.
 Local Open Scope Z_scope.
@@ -29,83 +30,110 @@ Qed.
 Print Assumptions C11_cond_ops_complete.
 
 (* ---- the compiled condition ---- *)
-(* For every operator of the table and every comparison value in the safe region
-   (cond_safe: truthy/falsy tests; values bound through a closure variable, i.e. not
-   is_builtin — unhashable values, nan/inf, Enum members, instances of user classes;
-   inlined values whose repr is a literal denoting them — None/bool/int/str/finite
-   float/tuples of those — except `is`/`is not` against a non-singleton) and every
-   field value v: evaluating the generated text on v gives exactly what
-   Condition.evaluate gives (True, False or TypeError).
-   _partial: outside cond_safe the statement is false, see C11_cond_compiled_refuted. *)
-Theorem C11_cond_compiled_partial :
-  forall c v, cond_safe c = true -> compiled_sem c v = evaluate c v.
-Proof. exact compiled_sem_correct. Qed.
-Print Assumptions C11_cond_compiled_partial.
+(* For EVERY operator of the table, EVERY comparison value (None, bool, int, float incl. nan,
+   +-inf, -0.0, str, tuple, list, dict, Enum members, objects, classes, builtin functions;
+   hashable or not, finite or not) and every field value v: compiling the condition and
+   evaluating the generated text on v gives exactly what Condition.evaluate gives
+   (True, False or TypeError); in particular the text always compiles. *)
+Theorem C11_cond_compiled :
+  forall c v, compiled_sem c v = evaluate c v.
+Proof. exact compiled_sem_evaluate. Qed.
+Print Assumptions C11_cond_compiled.
 
 (* the same inside any generated function: any attribute name, any closure variable name,
-   any frame *)
+   any frame, any surrounding closure holding the requested entry *)
 Theorem C11_cond_compiled_in_context :
   forall c var f v obj clo fr,
-    cond_safe c = true -> lookup_str obj f = Some v -> clo_has clo c var ->
+    lookup_str obj f = Some v -> clo_has clo c var ->
     eval_test (Env obj clo fr) (fst (compile_cond c var f)) = evaluate c v /\
     expr_bad (fst (compile_cond c var f)) = false.
 Proof.
-  intros c var f v obj clo fr Hs Ho Hc. split.
-  - exact (compile_cond_correct c var f v obj clo fr Hs Ho Hc).
-  - exact (compile_cond_not_bad c var f Hs).
+  intros c var f v obj clo fr Ho Hc. split.
+  - exact (compile_cond_correct c var f v obj clo fr (cond_safe_all c) Ho Hc).
+  - exact (compile_cond_not_bad c var f (cond_safe_all c)).
 Qed.
 Print Assumptions C11_cond_compiled_in_context.
 
-(* the premise is satisfiable by non-trivial conditions: an inlined negative float in a
-   tuple, a closure-bound list, nan, an Enum member *)
-Example C11_safe_examples :
-  cond_safe (Cond OpLe (LV (Some 1) (VTuple [VInt (-3); VFloat (FFin (-3) (-1)); VStr (S "a'b")]))) = true /\
-  cond_safe (Cond OpEq (LV (Some 2) (VList [VInt 1]))) = true /\
-  cond_safe (Cond OpLt (LV (Some 3) (VFloat FNan))) = true /\
-  cond_safe (Cond OpIs (LV None (VTok KEnum 1))) = true /\
-  cond_safe (Cond OpIsNot (LV None VNone)) = true.
+(* Why: whatever is inlined has a repr that is an expression denoting it (lemma
+   repr_roundtrip) and is tested for identity only if it is a singleton ... *)
+Theorem C11_inlined_denoted :
+  forall op v, inlined op v = true ->
+    (forall en, eval en (repr_expr v) = Ok (fresh v)) /\
+    (is_identity_op op = false \/ is_singleton v = true).
+Proof.
+  intros op v H. destruct (inlined_denoted op v H) as [Hr Hs]. split.
+  - intro en. exact (repr_roundtrip v Hr en).
+  - apply orb_true_iff in Hs. destruct Hs as [Hs|Hs]; [left|right; exact Hs].
+    destruct (is_identity_op op); [discriminate Hs|reflexivity].
+Qed.
+Print Assumptions C11_inlined_denoted.
+
+(* ... and everything else goes through a closure variable: unhashable values and non-finite
+   floats (the former F6 region); opaque objects — object(), classes, builtin functions, Enum
+   members —, tuples, and any non-singleton under `is` / `is not` (the former F20 region). *)
+Theorem C11_closure_region :
+  forall op v,
+    hashable v = false \/ nonfinite v = true \/
+    (exists k i, v = VTok k i) \/ (exists l, v = VTuple l) \/
+    (is_identity_op op = true /\ builtin_singleton v = false) ->
+    inlined op v = false.
+Proof. exact closure_region. Qed.
+Print Assumptions C11_closure_region.
+
+(* both branches are inhabited by non-trivial values *)
+Example C11_inline_examples :
+  inlined OpLe (VFloat (FFin (-3) (-1))) = true /\ inlined OpEq (VStr (S "a'b")) = true /\
+  inlined OpIsNot VNone = true /\ inlined OpNe (VInt (-7)) = true /\
+  inlined OpIs (VInt 10000000000) = false /\ inlined OpEq (VTuple [VInt 1; VInt 2]) = false /\
+  inlined OpEq (VList [VInt 1]) = false /\ inlined OpLt (VFloat FNan) = false /\
+  inlined OpIs (VTok KBareObj 1) = false /\ inlined OpEq (VTok KType 0) = false.
 Proof. repeat split; reflexivity. Qed.
 
-(* The region repaired by the F6 fix is inside the safe region: unhashable values and
-   non-finite floats, with every operator. *)
-Theorem C11_f6_region_safe :
-  forall op cv, hashable (val cv) = false \/ nonfinite (val cv) = true -> cond_safe (Cond op cv) = true.
-Proof. exact f6_region_safe. Qed.
-Print Assumptions C11_f6_region_safe.
+(* The former F20 witnesses now behave like Condition.evaluate (regression anchors):
+   IS(object()) on that object, EQ((nan,)) on 1, IS(10**10) on that very int. *)
+Example C11_former_f20_witnesses :
+  compiled_sem (Cond OpIs (LV None (VTok KBareObj 1))) (LV None (VTok KBareObj 1)) = Ok true /\
+  compiled_sem (Cond OpEq (LV (Some 1) (VTuple [VFloat FNan]))) (LV (Some 2) (VInt 1)) = Ok false /\
+  compiled_sem (Cond OpIs (LV (Some 7) (VInt 10000000000))) (LV (Some 7) (VInt 10000000000)) = Ok true.
+Proof. repeat split; reflexivity. Qed.
 
-(* Residual defect F20: values that are still inlined although their repr does not denote them.
-   (1) IS(object()): SyntaxError when the dump function is generated;
-   (2) EQ((nan,)): NameError when the test is evaluated;
-   (3) IS(x) for a non-singleton hashable builtin x (here the int 10**10) tested on x itself:
-       Condition.evaluate says True, the generated `o.f is 10000000000` compares with another object. *)
-Theorem C11_cond_compiled_refuted :
-  (exists c v, compiled_sem c v = Err SyntaxError /\ evaluate c v = Ok true) /\
-  (exists c v, compiled_sem c v = Err NameError /\ evaluate c v = Ok false) /\
-  (exists c v, compiled_sem c v = Err Unspecified /\ evaluate c v = Ok true).
-Proof.
-  split; [|split].
-  - exists (Cond OpIs (LV None (VTok KBareObj 1))), (LV None (VTok KBareObj 1)). split; reflexivity.
-  - exists (Cond OpEq (LV (Some 1) (VTuple [VFloat FNan]))), (LV (Some 2) (VInt 1)). split; reflexivity.
-  - exists (Cond OpIs (LV (Some 7) (VInt 10000000000))), (LV (Some 7) (VInt 10000000000)). split; reflexivity.
-Qed.
-Print Assumptions C11_cond_compiled_refuted.
+(* The meaning of the generated text of a condition does not depend on where it is
+   spliced: any attribute name, any closure variable name, any frame, any closure. *)
+Theorem C11_cond_text_context_free :
+  forall c var f v obj clo fr,
+    lookup_str obj f = Some v -> clo_has clo c var ->
+    eval_test (Env obj clo fr) (fst (compile_cond c var f)) = text_sem c v.
+Proof. exact compile_cond_text_sem. Qed.
+Print Assumptions C11_cond_text_context_free.
 
 (* ---- the key set ---- *)
 (* For every class description (any number of fields with distinct names, each with or
-   without key (dump=False), default, own condition), every Meta (skip_defaults, skip_if,
-   skip_defaults_if), every instance, every exclude argument (None or any list of names),
-   every skip_defaults argument (unset / True / False): the (key, field) pairs appended by
-   the generated cls_asdict — `_skip_i` bookkeeping, compiled conditions, closure
-   variables — are exactly the reference selection computed with Condition.evaluate,
-   including which exception propagates when a comparison raises.
-   _partial: conditions restricted to cond_safe (see above); C11_keys_refuted shows the
-   statement fails outside. *)
-Theorem C11_keys_partial :
+   without dump key (dump=False / skip=True), default, own condition), every Meta
+   (skip_defaults, skip_if, skip_defaults_if), every instance, every exclude argument (None
+   or any list of names) and every skip_defaults argument (unset / True / False): the
+   (key, field) pairs appended by the generated cls_asdict — `_skip_i` bookkeeping, compiled
+   conditions, closure variables — are exactly the reference selection computed with
+   Condition.evaluate: same pairs, same order, same exception when a comparison raises. *)
+Theorem C11_keys :
   forall m fs E s,
-    NoDup (map f_name fs) -> cls_safe m fs = true ->
+    NoDup (map f_name fs) ->
     cls_asdict m fs E s = ref_select evaluate m fs E s.
-Proof. exact cls_asdict_correct. Qed.
-Print Assumptions C11_keys_partial.
+Proof. exact cls_asdict_evaluate. Qed.
+Print Assumptions C11_keys.
+
+(* the bookkeeping part alone, independent of what the condition texts mean *)
+Theorem C11_keys_bookkeeping :
+  forall m fs E s,
+    NoDup (map f_name fs) ->
+    cls_asdict m fs E s =
+    if prog_bad (gen_prog m fs) then Err SyntaxError else ref_select text_sem m fs E s.
+Proof. exact cls_asdict_generated. Qed.
+Print Assumptions C11_keys_bookkeeping.
+
+(* the generated function always compiles *)
+Theorem C11_always_compiles : forall m fs, prog_bad (gen_prog m fs) = false.
+Proof. exact gen_prog_never_bad. Qed.
+Print Assumptions C11_always_compiles.
 
 (* The reference selection read as the property states it: when no evaluated comparison
    raises, the emitted pairs are those of the fields that are dumpable, not named in E,
@@ -125,39 +153,25 @@ Theorem C11_ref_select_spec :
 Proof. exact ref_select_spec. Qed.
 Print Assumptions C11_ref_select_spec.
 
-(* a concrete class satisfying the hypotheses of C11_keys_partial, with every feature:
-   a defaulted field with an inlined LT condition, a field bound through a closure (list),
-   a dump=False field, Meta.skip_if IS(None), Meta.skip_defaults_if EQ(nan) *)
+(* a concrete class with every feature: a defaulted field with an inlined LT condition, a
+   field bound through a closure (list), a dump=False field, Meta.skip_if IS(None),
+   Meta.skip_defaults_if EQ(nan), and a field with IS(10**10) holding that very object *)
 Definition ex_iv (z : Z) : lval := LV (Some z) (VInt z).
 Definition ex_fields : list fdesc :=
   [FD (S "fa") (Some (S "fa")) (Some (ex_iv 0)) (Some (Cond OpLt (ex_iv 5))) (ex_iv 7);
    FD (S "fb") (Some (S "fb")) None (Some (Cond OpEq (LV (Some 100) (VList [VInt 1])))) (LV (Some 101) (VList [VInt 1]));
    FD (S "fc") None (Some (ex_iv 1)) None (ex_iv 1);
    FD (S "fd") (Some (S "fd")) None None (LV None VNone);
-   FD (S "fe") (Some (S "fe")) (Some (LV (Some 102) (VFloat FNan))) None (LV (Some 102) (VFloat FNan))].
+   FD (S "fe") (Some (S "fe")) (Some (LV (Some 102) (VFloat FNan))) None (LV (Some 102) (VFloat FNan));
+   FD (S "ff") (Some (S "ff")) None (Some (Cond OpIs (ex_iv 10000000000))) (ex_iv 10000000000)].
 Definition ex_meta : cmeta :=
   CM false (Some (Cond OpIs (LV None VNone))) (Some (Cond OpEq (LV (Some 103) (VFloat FNan)))).
 
 Example C11_keys_example :
-  NoDup (map f_name ex_fields) /\ cls_safe ex_meta ex_fields = true /\
+  NoDup (map f_name ex_fields) /\
   cls_asdict ex_meta ex_fields None SUnset = Ok [(S "fa", S "fa"); (S "fe", S "fe")] /\
   cls_asdict ex_meta ex_fields (Some [S "fe"; S "zz"]) SFalse = Ok [(S "fa", S "fa")].
 Proof.
   split; [|repeat split; reflexivity].
   repeat constructor; cbn; intuition discriminate.
 Qed.
-
-(* Outside the safe region the key set is wrong (or the dump raises) although the
-   reference is defined: one field with IS(x), x = 10**10, holding x itself. *)
-Theorem C11_keys_refuted :
-  exists m fs E s,
-    NoDup (map f_name fs) /\
-    ref_select evaluate m fs E s = Ok [] /\
-    cls_asdict m fs E s <> ref_select evaluate m fs E s.
-Proof.
-  exists (CM false None None),
-         [FD (S "fa") (Some (S "fa")) None (Some (Cond OpIs (ex_iv 10000000000))) (ex_iv 10000000000)],
-         None, SUnset.
-  split; [repeat constructor; intros []|]. split; [reflexivity|]. discriminate.
-Qed.
-Print Assumptions C11_keys_refuted.
